@@ -631,6 +631,130 @@ fn borrowed_lane(t: &mut Tctx) {
     }
 }
 
+
+/// A message (tuple of `m` bytes) whose COBS frame is longer than 256 bytes and, when possible, starts with a code
+/// byte equal to (frame length - 1) mod 256 - the coincidence a truncating length comparison would trip over.
+fn long_frame_message(rng: &mut Rng, m: usize, coincidence: bool) -> Vec<u8> {
+    let base: Vec<u8> = (0..m).map(|_| 1 + (rng.next() % 255) as u8).collect();
+    if !coincidence {
+        let mut b = base;
+        for x in b.iter_mut() {
+            if rng.chance(1, 90) {
+                *x = 0;
+            }
+        }
+        return b;
+    }
+    for p in 0..254usize.min(m) {
+        let mut b = base.clone();
+        b[p] = 0;
+        let f = cobs_encode(&b);
+        if f[0] == ((f.len() + 1 - 1) % 256) as u8 {
+            return b;
+        }
+    }
+    base
+}
+
+/// Long frames (250..700 bytes) at capacities 256 / 4096, alone and between short ones, under random chunkings.
+fn long_frames_lane(t: &mut Tctx, prop: &str, states: &mut std::collections::HashSet<u64>) {
+    let n = t.cfg.scale(2, 400, 8000);
+    for i in 0..n {
+        if t.cfg.expired() {
+            break;
+        }
+        let m = t.rng.range(240, 700);
+        let shape = Shape::Tuple((0..m).map(|_| Shape::U8).collect());
+        let text = shape.text();
+        let msg = long_frame_message(&mut t.rng, m, i % 2 == 0);
+        let mut frame = cobs_encode(&msg);
+        frame.push(0);
+        let cap = if frame.len() <= 256 && t.rng.chance(1, 2) { 256 } else { 4096 };
+        let mut stream = Vec::new();
+        if t.rng.chance(1, 2) {
+            stream.extend_from_slice(&[0x02, 0x07, 0x00]); // a short segment first (not a value of the long shape)
+        }
+        stream.extend_from_slice(&frame);
+        if t.rng.chance(1, 2) {
+            stream.extend_from_slice(&frame);
+        }
+        t.st.count("long_frame_streams");
+        if prop == "C08" {
+            let expected = expectations(&shape, &stream);
+            for _ in 0..3 {
+                let chunks = random_chunks(&mut t.rng, stream.len());
+                t.st.nontrivial(fp_mix(fp(&stream), fp(&chunks.iter().map(|c| (*c % 251) as u8).collect::<Vec<_>>())));
+                if !c08_one(t, cap, &shape, &text, &stream, &chunks, t.rng.clone().chance(1, 2), &expected, states) {
+                    return;
+                }
+            }
+        } else {
+            let valid = valid_frames_after_zero(&shape, &stream, cap);
+            t.st.add("valid_frames_after_zero", valid.len() as u64);
+            for _ in 0..3 {
+                let chunks = random_chunks(&mut t.rng, stream.len());
+                t.st.nontrivial(fp_mix(fp(&stream), fp(&chunks.iter().map(|c| (*c % 251) as u8).collect::<Vec<_>>()) ^ cap as u64));
+                if !c09_one(t, cap, &shape, &text, &stream, &chunks, t.rng.clone().chance(1, 2), &valid) {
+                    return;
+                }
+            }
+        }
+    }
+}
+
+/// One accumulator instance that lives through very many overflows (more than 2^16 and, in the thorough tier,
+/// more than 2^20) and must still deliver a well-formed frame afterwards.
+fn long_lived_instance<const N: usize>(t: &mut Tctx, overflows: usize) {
+    let mut acc: CobsAccumulator<N> = CobsAccumulator::new();
+    let seg: Vec<u8> = (0..N + 1).map(|i| 1 + (i % 200) as u8).chain(std::iter::once(0)).collect();
+    let frame: Vec<u8> = {
+        let mut f = cobs_encode(&[0x2A]);
+        f.push(0);
+        f
+    };
+    let r = catch(|| -> Result<(u64, bool), String> {
+        let mut seen = 0u64;
+        for _ in 0..overflows {
+            let mut window: &[u8] = &seg;
+            let mut guard = 0;
+            while !window.is_empty() {
+                guard += 1;
+                if guard > 2 * seg.len() + 2 {
+                    return Err("feed loop does not progress".into());
+                }
+                window = match acc.feed::<u8>(window) {
+                    FeedResult::Consumed => break,
+                    FeedResult::OverFull(r) => {
+                        seen += 1;
+                        r
+                    }
+                    FeedResult::DeserError(r) => r,
+                    FeedResult::Success { remaining, .. } => remaining,
+                };
+                if acc.verif_buffered().len() > N {
+                    return Err("buffered bytes exceed the capacity".into());
+                }
+            }
+        }
+        // the smallest capacities hold only the frame of a zero-length value
+        let delivered = if N >= 3 {
+            matches!(acc.feed::<u8>(&frame), FeedResult::Success { data: 0x2A, remaining } if remaining.is_empty())
+        } else {
+            matches!(acc.feed::<()>(&[0x01, 0x00]), FeedResult::Success { data: (), remaining } if remaining.is_empty())
+        };
+        Ok((seen, delivered))
+    });
+    t.st.eval();
+    t.st.count("long_lived_instances");
+    let rp = vec![kv("kind", "acc-long-lived"), kv("capacity", N.to_string()), kv("overflows", overflows.to_string())];
+    match r {
+        Ok(Ok((seen, true))) if seen as usize >= overflows => t.st.add("result_overfull", seen),
+        Ok(Ok((seen, delivered))) => t.st.violation("C09:valid-frame-after-zero-not-delivered", format!("capacity {}: after {} over-long segments ({} OverFull results) a well-formed frame was {}delivered", N, overflows, seen, if delivered { "" } else { "not " }), rp),
+        Ok(Err(m)) => t.st.violation("C09:long-lived-instance", format!("capacity {}: {}", N, m), rp),
+        Err(p) => t.st.violation("C09:panic", format!("capacity {}: feed panicked after many overflows on one instance: {}", N, p), rp),
+    }
+}
+
 fn c08_one(t: &mut Tctx, n: usize, shape: &Shape, text: &str, stream: &[u8], chunks: &[usize], use_ref: bool, expected: &[Expect], states: &mut std::collections::HashSet<u64>) -> bool {
     t.st.eval();
     let mut obs = RunObs::default();
@@ -796,6 +920,7 @@ pub fn run_c08(cfg: &Cfg) -> Report {
                 }
             }
         }
+        long_frames_lane(t, "C08", &mut states);
         t.st.add("distinct_position_states", states.len() as u64);
         borrowed_lane(t);
     });
@@ -806,7 +931,7 @@ pub fn run_c08(cfg: &Cfg) -> Report {
     rep.extra.insert("transitions".into(), J::i(tr));
     rep.rule = "cases = (capacity N, target type, stream, chunking, feed|feed_ref): streams over {valid frames, corrupt COBS, valid COBS with bad payload, empty frames, terminated garbage, \
                 exact-fit/one-short garbage, unterminated tail} in which every segment and the tail fit N; ALL 2^(len-1) chunkings of streams up to 12 (quick) / 16 (thorough) bytes - each also with an empty feed call before, between and after all chunks -, all \
-                O(len^2) single transitions of streams up to 64 bytes, random chunkings of streams up to 4 KiB; N in {4,5,6,8,12,16,32,64,256,4096}; every feed call checked online against a \
+                O(len^2) single transitions of streams up to 64 bytes, random chunkings of streams up to 4 KiB; N in {4,5,6,8,12,16,32,64,256,4096}; frames of 250..700 bytes (half of them with a first code byte equal to (frame length - 1) mod 256) at capacities 256 and 4096; every feed call checked online against a \
                 sequential model (pending bytes) with the verif_buffered hook; borrowed target type through feed_ref. Non-trivial = every (stream, chunking); distinct = fingerprint of (stream, chunking, N)."
         .into();
     rep.assumptions = vec![
@@ -821,6 +946,7 @@ pub fn run_c08(cfg: &Cfg) -> Report {
     rep.floor("transitions_enumerated", 100);
     rep.floor("borrowed_target_streams", 10);
     rep.floor("empty_feed_calls", 100);
+    rep.floor("long_frame_streams", 20);
     rep
 }
 
@@ -1018,10 +1144,23 @@ pub fn run_c09(cfg: &Cfg) -> Report {
                 }
             }
         }
+        let mut states = std::collections::HashSet::new();
+        long_frames_lane(t, "C09", &mut states);
+        // one instance, very many overflows
+        if t.tid < 4 && t.cfg.tier != Tier::Tiny {
+            let k = if t.cfg.tier == Tier::Thorough { 1_100_000 } else { 70_000 };
+            match t.tid {
+                0 => long_lived_instance::<2>(t, k),
+                1 => long_lived_instance::<3>(t, k),
+                2 => long_lived_instance::<8>(t, k),
+                _ => long_lived_instance::<64>(t, k / 4 + 66_000),
+            }
+        }
     });
     rep.stats.merge(s);
+    rep.floor("long_frame_streams", 20);
     rep.rule = "cases = (capacity N, target, stream, chunking): streams mixing valid frames, corrupt frames, garbage, empty frames, segments of length N+1..3N and random bytes; N in {1,2,3,4,5,6,8,16}; \
-                frames steered to lengths N-1, N and N+1; ALL chunkings of streams up to 12 (quick) / 16 (thorough) bytes (each also with empty feed calls interleaved), random chunkings beyond (one in three with empty calls). Monitors per call: no panic, an empty call changes nothing, \
+                frames steered to lengths N-1, N and N+1; frames of 250..700 bytes at capacities 256 / 4096; one instance fed 70 000 (thorough: 1 100 000) over-long segments and then a valid frame; ALL chunkings of streams up to 12 (quick) / 16 (thorough) bytes (each also with empty feed calls interleaved), random chunkings beyond (one in three with empty calls). Monitors per call: no panic, an empty call changes nothing, \
                 remainder is a suffix of the window, hook: buffered <= N and == 0 after any call that consumed a zero byte, no zero byte swallowed by Consumed, bounded progress (<= 2l+2 calls per \
                 l-byte chunk, never two unshortened windows in a row); per stream: every over-long segment has an OverFull at or before its sentinel, every well-formed fitting frame that follows a zero byte is delivered."
         .into();
